@@ -553,6 +553,43 @@ def gen_scenario(rng, est, nmax=64, min_ch=1, max_ch=5, lead=None, layout=None):
     return sc
 
 
+_DPSS_OK = {}
+
+
+def dpss_ok(sc):
+    """does nitime.utils.dpss_windows (property C07's code) produce tapers for this scenario's (N, NW, Kmax)?
+    It raises ZeroDivisionError for some sizes (e.g. N=8, NW=2); a scenario built to exercise a specific
+    configuration must not be lost to that."""
+    if not sc["est"].startswith("multi_taper"):
+        return True
+    import nitime.utils as ut
+    n = sc["shape"][-1]
+    if sc.get("BW") is not None:
+        nw = float(np.round(float.fromhex(sc["BW"]) * n / fs_of(sc))) / 2.0
+    elif sc.get("NW") is not None:
+        nw = float.fromhex(sc["NW"])
+    else:
+        nw = 4
+    key = (n, nw)
+    if key not in _DPSS_OK:
+        try:
+            ut.dpss_windows(n, nw, int(2 * nw))
+            _DPSS_OK[key] = True
+        except Exception:  # noqa
+            _DPSS_OK[key] = False
+    return _DPSS_OK[key]
+
+
+def runnable(make, tries=8):
+    """call make() until every scenario it returns gets its tapers (see dpss_ok)"""
+    for _ in range(tries):
+        out = make()
+        lst = out if isinstance(out, list) else [out]
+        if all(dpss_ok(sc) for sc in lst):
+            return out
+    return out
+
+
 def force_few_tapers(rng, sc):
     """adaptive=True with fewer than 3 usable tapers (NW = 1, NW = 1.5 + low_bias, or a small BW)"""
     n = sc["shape"][-1]
@@ -569,6 +606,29 @@ def force_few_tapers(rng, sc):
         sc["BW"] = float((2 + rng.uniform(-0.3, 0.3)) * fs_of(sc) / n).hex()
         sc["low_bias"] = rng.random() < 0.5
     sc["adaptive"] = True
+    return sc
+
+
+def force_coherent(rng, sc):
+    """adaptive weights on channels that are filtered copies of one signal (differently coloured, so each
+    channel gets its own adaptive weights, yet almost perfectly coherent): the positive-semidefiniteness
+    clause is tight here, a wrong per-channel normalisation pushes an eigenvalue below zero"""
+    x = sc_data(sc)
+    n = x.shape[-1]
+    x2 = x.reshape(-1, n)
+    base = np.real(x2[0]).astype(float)
+    e = [rng.gauss(0, 1) for _ in range(n)]
+    v = np.zeros(n)
+    for i in range(n):
+        v[i] = 0.6 * (v[i - 1] if i else 0.0) + e[i]
+    scale = float(np.max(np.abs(base))) or 1.0
+    v = v * 2.0 ** int(np.floor(np.log2(scale)))
+    rows = [v, v - 0.95 * np.roll(v, 1), v + 0.95 * np.roll(v, 1), np.roll(v, 2) - 0.5 * v]
+    M = x2.shape[0]
+    set_data(sc, np.array([rows[i % 4] for i in range(M)]).reshape(x.shape))
+    sc["adaptive"] = True
+    sc["low_bias"] = True
+    sc.pop("layout", None)
     return sc
 
 
@@ -605,8 +665,11 @@ def gen_parity_matrix(rng, est, n_even, n_odd, M=2, per_cell=1):
                 sc["normalize"] = True
                 if est.startswith("multi_taper"):
                     sc.pop("BW", None)
-                    sc["NW"] = float(2.0 if n >= 8 else 1.0).hex()
                     sc["low_bias"] = True
+                    for nwv in (2.0, 2.5, 1.5, 3.0, 1.0):
+                        sc["NW"] = float(nwv).hex()
+                        if nwv <= n / 4.0 and dpss_ok(sc):
+                            break
                     sc["adaptive"] = bool((i // 2) % 2)
                     sc["jackknife"] = False
                 else:
